@@ -459,6 +459,16 @@ def _resolve_field_reference(field_reference, source_file_name, errors, ir):
     previous_field = ir_util.find_object_or_none(field_reference.path[0], ir)
     previous_reference = field_reference.path[0]
     for ref in field_reference.path[1:]:
+        if isinstance(previous_field, ir_data.RuntimeParameter):
+            # Parameters are integers or enums, and so have no members.
+            errors.append(
+                noncomposite_subfield_error(
+                    source_file_name,
+                    previous_reference.source_location,
+                    previous_reference.source_name[0].text,
+                )
+            )
+            return
         while ir_util.field_is_virtual(previous_field):
             if previous_field.read_transform.which_expression == "field_reference":
                 # Pass a separate error list into the recursive _resolve_field_reference
@@ -507,7 +517,9 @@ def _resolve_field_reference(field_reference, source_file_name, errors, ir):
         )
         ir_data_utils.builder(member_name).object_path.extend([ref.source_name[0].text])
         previous_field = ir_util.find_object_or_none(member_name, ir)
-        if previous_field is None:
+        # Only fields are members: the runtime parameters (and nested types) of
+        # the field's type are not reachable through the field.
+        if not isinstance(previous_field, ir_data.Field):
             errors.append(
                 missing_name_error(
                     source_file_name,
